@@ -178,6 +178,7 @@ func runCheck(args []string, opts *checkOpts) int {
 		replayDir = filepath.Join(outDir, "replays")
 	}
 	os.RemoveAll(outDir)
+	os.RemoveAll(replayDir)
 	os.MkdirAll(outDir, 0755)
 	os.MkdirAll(replayDir, 0755)
 
